@@ -118,6 +118,15 @@ def run(e: Engine, rep: Report):
              'outstanding and are delivered again after a restart')
     from ..kinds import Kinds as _Kinds
     _c01.r15(e, rep, _Kinds(e), 'R3.14')
+    rep.rule('R3.15', '= C13-B18: the catch-all arm of Queue._attempt files '
+             'the whole envelope for a retry and therefore belongs to a try '
+             'that covers the relay call only; recording the outcome inside '
+             'it turns any failure of that recording (a store that raises '
+             'before the marks are written) into a fresh attempt on '
+             'recipients the relay already reported as settled')
+    common.attempt_try_scope(
+        e, rep, 'R3.15', 'recipients the relay reported as delivered or '
+        'permanently failed are attempted again')
     rep.floor('R3.1', 2, 'attempt spawn sites')
     rep.floor('R3.7', 2, 'release sites of the in-flight mark')
 
